@@ -326,5 +326,210 @@ theorem genRules_eq : genRules = PathSet.pathRules := by
 theorem genGoodRules_eq : genGoodRules = PathSet.goodRules := by
   simp only [genGoodRules, PathSet.goodRules, genRules_eq]
 
+/-! ### the `PathSet` methods (for any rules `R` over paths) -/
+
+theorem sliceTo3_nat (xs : List PathStep) (n : Nat) (h : n ≤ xs.length) :
+    sliceTo3 xs (n : Int) (n : Int) = .ok (xs.take n) := by
+  have h1 : ¬ (((n : Int) < 0) ∨ ((n : Int) > (n : Int)) ∨ ((n : Int) > (xs.length : Int))) := by omega
+  simp only [sliceTo3, Bool.or_eq_true, decide_eq_true_eq, or_assoc, h1, if_false, Int.toNat_natCast]
+
+theorem addAll_loop (R : Rules Path) (p : Path) : ∀ (n k : Nat) (s : SetImpl Path), k + n = p.length →
+    PathSet_AddAllSteps_loop1 R p s n ((k : Int) + 1) =
+      .ok (((List.range' k n).map fun i => p.take (i + 1)).foldl (SetImpl.add R) s)
+  | 0, k, s, _ => by simp [PathSet_AddAllSteps_loop1]
+  | n + 1, k, s, h => by
+    have hk : ((k : Int) + 1) = ((k + 1 : Nat) : Int) := by omega
+    have ih := addAll_loop R p n (k + 1) (SetImpl.add R s (p.take (k + 1))) (by omega)
+    simp only [PathSet_AddAllSteps_loop1, hk, sliceTo3_nat p (k + 1) (by omega), rbind_ok, PathSet_Add,
+      List.range'_succ, List.map_cons, List.foldl_cons]
+    rw [← ih]
+
+/-- `PathSet.AddAllSteps` as written in the source adds `path[:1], …, path[:len(path)]`, in that order: the model's
+`addAll` of `prefixes` (no slice bound is out of range) -/
+theorem addAllSteps_eq (R : Rules Path) (s : SetImpl Path) (p : Path) :
+    PathSet_AddAllSteps R s p = .ok (PathSet.addAll R s (PathSet.prefixes p)) := by
+  have hn : Int.toNat (((p.length : Int) - 1) + 1) = p.length := by omega
+  have := addAll_loop R p p.length 0 s (by omega)
+  simp only [Int.ofNat_eq_natCast, Int.natCast_zero, Int.zero_add] at this
+  simp only [PathSet_AddAllSteps, Int.ofNat_eq_natCast, hn, this, PathSet.addAll, PathSet.prefixes, List.range_eq_range']
+
+theorem equal_loop (R : Rules Path) (o : SetImpl Path) : ∀ l : List Path,
+    PathSet_Equal_loop1 R o l = .ok (l.all fun v => SetImpl.has R o v)
+  | [] => by simp [PathSet_Equal_loop1]
+  | v :: l => by
+    simp only [PathSet_Equal_loop1, equal_loop R o l, List.all_cons]
+    cases SetImpl.has R o v <;> simp
+
+/-- `PathSet.Equal` as written in the source is the model's `PathSet.equal` -/
+theorem equal_eq (R : Rules Path) (s o : SetImpl Path) : PathSet_Equal R s o = .ok (PathSet.equal R s o) := by
+  by_cases h : s.length = o.length
+  · simp [PathSet_Equal, PathSet.equal, Int.ofNat_eq_natCast, h, equal_loop]
+  · have : ¬ ((s.length : Int) = (o.length : Int)) := by omega
+    simp [PathSet_Equal, PathSet.equal, Int.ofNat_eq_natCast, h, this]
+
+/-- `PathSet.Empty` -/
+theorem empty_eq (s : SetImpl Path) : PathSet_Empty s = .ok (PathSet.isEmpty s) := by
+  by_cases h : s.length = 0
+  · simp [PathSet_Empty, PathSet.isEmpty, Int.ofNat_eq_natCast, h]
+  · have : ¬ ((s.length : Int) = 0) := by omega
+    have h1 : ((s.length : Int) == 0) = false := by simpa using this
+    have h2 : (s.length == 0) = false := by simpa using h
+    simp only [PathSet_Empty, PathSet.isEmpty, Int.ofNat_eq_natCast, h1, h2]
+
+theorem list_loop : ∀ (l acc : List Path), PathSet_List_loop1 acc l = .ok (acc ++ l)
+  | [], acc => by simp [PathSet_List_loop1]
+  | v :: l, acc => by simp [PathSet_List_loop1, list_loop l]
+
+/-- `PathSet.List` -/
+theorem list_eq (R : Rules Path) (s : SetImpl Path) : PathSet_List R s = .ok (PathSet.list R s) := by
+  have h1 : ¬ ((s.length : Int) < 0) := by omega
+  simp only [PathSet_List, empty_eq, rbind_ok, PathSet.list, makePaths, Int.ofNat_eq_natCast, h1, if_false, list_loop,
+    List.nil_append]
+  split <;> rfl
+
+/-- the methods that forward to cty/set -/
+theorem add_eq (R : Rules Path) (s : SetImpl Path) (p : Path) : PathSet_Add R s p = .ok (SetImpl.add R s p) := rfl
+theorem remove_eq (R : Rules Path) (s : SetImpl Path) (p : Path) : PathSet_Remove R s p = .ok (SetImpl.remove R s p) := rfl
+theorem has_eq (R : Rules Path) (s : SetImpl Path) (p : Path) : PathSet_Has R s p = .ok (SetImpl.has R s p) := rfl
+theorem union_eq (R : Rules Path) (s o : SetImpl Path) : PathSet_Union R s o = .ok (SetImpl.union R s o) := rfl
+theorem intersection_eq (R : Rules Path) (s o : SetImpl Path) :
+    PathSet_Intersection R s o = .ok (SetImpl.intersection R s o) := rfl
+theorem subtract_eq (R : Rules Path) (s o : SetImpl Path) : PathSet_Subtract R s o = .ok (SetImpl.subtract R s o) := rfl
+theorem symmetricDifference_eq (R : Rules Path) (s o : SetImpl Path) :
+    PathSet_SymmetricDifference R s o = .ok (SetImpl.symmetricDifference R s o) := rfl
+
+/-! ### `Walk` / `walk` (cty/walk.go) -/
+
+theorem stepKey_getAttr (n : String) : stepKey (.getAttr n) = ⟨.string, .s n⟩ := rfl
+theorem stepKey_index (k : Value) : stepKey (.index k) = k := rfl
+
+theorem loop1_eq (path : Path) (self : Walk.WalkRec) : ∀ (kids : List (PathStep × Value)) (log : List Walk.Visit),
+    (∀ sc ∈ kids, ∃ n, sc.1 = .getAttr n) →
+    walk_loop1 path self log (kids.map fun sc => (stepKey sc.1, sc.2)) = Walk.walkKids self log path kids
+  | [], log, _ => by simp [walk_loop1, Walk.walkKids]
+  | (s, c) :: kids, log, h => by
+    obtain ⟨n, hn⟩ := h (s, c) (by simp)
+    simp only at hn
+    subst hn
+    have ih := fun l => loop1_eq path self kids l (fun sc hsc => h sc (by simp [hsc]))
+    simp only [List.map_cons, walk_loop1, Walk.walkKids, stepKey_getAttr, asString, bindT]
+    rcases hr : self log (path ++ [PathStep.getAttr n]) c with ⟨l, r⟩
+    cases r <;> simp [callT, ih]
+
+theorem loop2_eq (path : Path) (self : Walk.WalkRec) : ∀ (kids : List (PathStep × Value)) (log : List Walk.Visit),
+    (∀ sc ∈ kids, ∃ k, sc.1 = .index k) →
+    walk_loop2 path self log (kids.map fun sc => (stepKey sc.1, sc.2)) = Walk.walkKids self log path kids
+  | [], log, _ => by simp [walk_loop2, Walk.walkKids]
+  | (s, c) :: kids, log, h => by
+    obtain ⟨k, hk⟩ := h (s, c) (by simp)
+    simp only at hk
+    subst hk
+    have ih := fun l => loop2_eq path self kids l (fun sc hsc => h sc (by simp [hsc]))
+    simp only [List.map_cons, walk_loop2, Walk.walkKids, stepKey_index]
+    rcases hr : self log (path ++ [PathStep.index k]) c with ⟨l, r⟩
+    cases r <;> simp [callT, ih]
+
+theorem objKids_attr : ∀ (ns : List String) (ts : List Ty) (vs : List Payload),
+    ∀ sc ∈ Walk.objKids ns ts vs, ∃ n, sc.1 = PathStep.getAttr n
+  | [], _, _ => by simp [Walk.objKids]
+  | _ :: _, [], _ => by simp [Walk.objKids]
+  | _ :: _, _ :: _, [] => by simp [Walk.objKids]
+  | n :: ns, t :: ts, v :: vs => by
+    intro sc h
+    simp only [Walk.objKids, List.mem_cons] at h
+    rcases h with rfl | h
+    · exact ⟨n, rfl⟩
+    · exact objKids_attr ns ts vs sc h
+
+theorem seqKids_index (e : Ty) : ∀ (vs : List Payload) (i : Nat), ∀ sc ∈ Walk.seqKids e i vs, ∃ k, sc.1 = PathStep.index k
+  | [], _ => by simp [Walk.seqKids]
+  | v :: vs, i => by
+    intro sc h
+    simp only [Walk.seqKids, List.mem_cons] at h
+    rcases h with rfl | h
+    · exact ⟨_, rfl⟩
+    · exact seqKids_index e vs (i + 1) sc h
+
+theorem tupKids_index : ∀ (ts : List Ty) (vs : List Payload) (i : Nat), ∀ sc ∈ Walk.tupKids i ts vs, ∃ k, sc.1 = PathStep.index k
+  | [], _, _ => by simp [Walk.tupKids]
+  | _ :: _, [], _ => by simp [Walk.tupKids]
+  | t :: ts, v :: vs, i => by
+    intro sc h
+    simp only [Walk.tupKids, List.mem_cons] at h
+    rcases h with rfl | h
+    · exact ⟨_, rfl⟩
+    · exact tupKids_index ts vs (i + 1) sc h
+
+theorem mapKids_index (e : Ty) : ∀ (ks : List String) (vs : List Payload), ∀ sc ∈ Walk.mapKids e ks vs, ∃ k, sc.1 = PathStep.index k
+  | [], _ => by simp [Walk.mapKids]
+  | _ :: _, [] => by simp [Walk.mapKids]
+  | k :: ks, v :: vs => by
+    intro sc h
+    simp only [Walk.mapKids, List.mem_cons] at h
+    rcases h with rfl | h
+    · exact ⟨_, rfl⟩
+    · exact mapKids_index e ks vs sc h
+
+theorem setKids_index (e : Ty) : ∀ (ms : List Payload), ∀ sc ∈ Walk.setKids e ms, ∃ k, sc.1 = PathStep.index k
+  | [] => by simp [Walk.setKids]
+  | m :: ms => by
+    intro sc h
+    simp only [Walk.setKids, List.mem_cons] at h
+    rcases h with rfl | h
+    · exact ⟨_, rfl⟩
+    · exact setKids_index e ms sc h
+
+/-- the members of an object are reached by attribute steps, all others by index steps, and a value that
+`CanIterateElements` refuses has no members -/
+theorem children_steps (X : SetOracle) (v : Value) :
+    (isObjectType v.ty = true → ∀ sc ∈ Walk.children X v, ∃ n, sc.1 = PathStep.getAttr n) ∧
+    (isObjectType v.ty = false → ∀ sc ∈ Walk.children X v, ∃ k, sc.1 = PathStep.index k) ∧
+    (isObjectType v.ty = false → canIterateElements v = false → Walk.children X v = []) := by
+  obtain ⟨ty, p⟩ := v
+  cases ty <;> cases p <;>
+    simp [Walk.children, isObjectType, canIterateElements, isListType, isMapType, isSetType, isTupleType,
+      Value.isMarked, Payload.isMarked]
+  all_goals first
+    | exact fun a b h => objKids_attr _ _ _ (a, b) h
+    | exact fun a b h => seqKids_index _ _ _ (a, b) h
+    | exact fun a b h => tupKids_index _ _ _ (a, b) h
+    | exact fun a b h => mapKids_index _ _ _ (a, b) h
+    | exact fun a b h => setKids_index _ _ (a, b) h
+
+/-- `walk` as written in the source is the model's `walkFuel`: same callback invocations, same outcome, for every
+callback (failing, pruning, panicking ones included) -/
+theorem walk_fuel_eq (X : SetOracle) (cb : Walk.WalkCb) : ∀ (n : Nat) (log : List Walk.Visit) (path : Path) (val : Value),
+    walk_fuel X cb n log path val = Walk.walkFuel X cb n log path val
+  | 0, _, _, _ => rfl
+  | n + 1, log, path, val => by
+    have ih : walk_fuel X cb n = Walk.walkFuel X cb n := by
+      funext l p v; exact walk_fuel_eq X cb n l p v
+    obtain ⟨h1, h2, h3⟩ := children_steps X val.unmark
+    simp only [walk_fuel, Walk.walkFuel, ih]
+    cases cb log path val with
+    | ok deeper =>
+      simp only [callCb]
+      cases deeper <;> simp only [Bool.not_false, Bool.not_true, if_true, Bool.false_eq_true, if_false]
+      split
+      · rfl
+      · have hty : (Value.unmark val).ty = val.ty := rfl
+        by_cases ho : isObjectType val.ty = true
+        · simp only [ho, if_true, elements]
+          exact loop1_eq path _ _ _ (h1 (by rw [hty]; exact ho))
+        · have ho' : isObjectType val.ty = false := by simpa using ho
+          simp only [ho', Bool.false_eq_true, if_false, elements]
+          by_cases hc : canIterateElements val.unmark = true
+          · simp only [hc, if_true]
+            exact loop2_eq path _ _ _ (h2 (by rw [hty]; exact ho'))
+          · have hc' : canIterateElements val.unmark = false := by simpa using hc
+            simp only [hc', Bool.false_eq_true, if_false, h3 (by rw [hty]; exact ho') hc', Walk.walkKids]
+    | err c => rfl
+    | panic w => rfl
+    | unmodelled => rfl
+
+/-- `cty.Walk` as written in the source is the model's `Walk.walk` -/
+theorem walk_eq (X : SetOracle) (cb : Walk.WalkCb) (val : Value) : go_Walk X cb [] val = Walk.walk X cb val := by
+  simp only [go_Walk, walk, Walk.walk, walk_fuel_eq]
+
 end PathFnsTie
 end CtyModel
